@@ -176,6 +176,15 @@ func (p *Parser) Parse(formatOnly bool) (*bytes.Buffer, int) {
 	// now that the file was parsed, we replace all definitions
 	if len(p.variables) > 0 {
 		p.dest = expandDefinitions(p.dest, p.variables)
+		// prefix and suffix lines are not part of dest, expand them as well
+		for needle, replacement := range p.variables {
+			for i := range p.Prefixes {
+				p.Prefixes[i] = strings.ReplaceAll(p.Prefixes[i], "{{"+needle+"}}", replacement)
+			}
+			for i := range p.Suffixes {
+				p.Suffixes[i] = strings.ReplaceAll(p.Suffixes[i], "{{"+needle+"}}", replacement)
+			}
+		}
 	}
 	return p.dest, wrote
 }
